@@ -18,6 +18,7 @@ import (
 	"github.com/mmcloughlin/avo/ir"
 	"github.com/mmcloughlin/avo/pass"
 	"github.com/mmcloughlin/avo/printer"
+	"github.com/mmcloughlin/avo/reg"
 )
 
 func init() {
@@ -145,6 +146,47 @@ func safeBuild(p *Prog) (s string) {
 	return out
 }
 
+// perturb does, between two generations of the same program, what another part of a user's generator might
+// do in the same process: allocate with allocators of its own (custom priorities, its own interference),
+// draw registers from collections, build and compile an unrelated program.  None of it may influence the
+// next generation.
+func perturb(r *RNG) {
+	defer func() { recover() }()
+	for _, k := range []reg.Kind{reg.KindGP, reg.KindVector, reg.KindOpmask} {
+		a, err := pass.NewAllocatorForKind(k)
+		if err != nil {
+			continue
+		}
+		for _, pr := range reg.FamilyOfKind(k).Registers() {
+			if r.Bool() {
+				a.SetPriority(pr.ID(), r.Intn(9)-4)
+			}
+		}
+		coll := reg.NewCollection()
+		var vs []reg.Register
+		for j := 0; j < 2+r.Intn(5); j++ {
+			var v reg.Register
+			switch k {
+			case reg.KindGP:
+				v = coll.GP64()
+			case reg.KindVector:
+				v = coll.XMM()
+			default:
+				v = coll.K()
+			}
+			a.Add(v.ID())
+			for _, w := range vs {
+				if r.Chance(70) {
+					a.AddInterference(v.ID(), w.ID())
+				}
+			}
+			vs = append(vs, v)
+		}
+		a.Allocate()
+	}
+	safeBuild(genProg(r, ProgOpts{MaxNodes: 8 + r.Intn(20), Phys: r.Bool(), NVirt: 3 + r.Intn(14), Branches: r.Bool()}))
+}
+
 // child: print one hash per program (fresh process = fresh hash seed)
 func c17child(c *Ctx) {
 	n := 150
@@ -166,6 +208,7 @@ func c17(c *Ctx) {
 	}
 	progs := c17Progs(c.Seed, n)
 	ref := make([]string, len(progs))
+	prng := NewRNG(c.Seed + 1717)
 	diffs := 0
 	okc := 0
 	for j, p := range progs {
@@ -176,6 +219,9 @@ func c17(c *Ctx) {
 		}
 		idx := o.AddCase(Case{Key: "determinism:in-process", Desc: p.Text(), Input: map[string]any{"prog": p.Text()}, Nontrivial: nt})
 		for r := 1; r < reps; r++ {
+			if r%2 == 0 {
+				perturb(prng)
+			}
 			if got := safeBuild(p); got != ref[j] {
 				diffs++
 				o.Plan.GoViolations = append(o.Plan.GoViolations, GoViolation{Key: "determinism:in-process",
@@ -216,7 +262,7 @@ func c17(c *Ctx) {
 	o.Stage("Ranges.v")
 	o.Oblig("Ranges.ranges_covered")
 	o.ExpectEmpty("Ranges.v", "R_uncovered", "obligation", "a `range` over a Go map appears in hand-written avo code that the order-independence theorems do not cover")
-	o.Plan.Rule = fmt.Sprintf("each program is compiled and printed (assembly + stubs + allocation) %d times in one process with fresh contexts (Go randomises map iteration per range) and once in each of %d fresh processes (fresh hash seeds); all outputs must be byte-identical; non-trivial = compilation succeeded and the program has more than 5 nodes; distinct by program text", reps, procs)
+	o.Plan.Rule = fmt.Sprintf("each program is compiled and printed (assembly + stubs + allocation) %d times in one process with fresh contexts (Go randomises map iteration per range) and once in each of %d fresh processes (fresh hash seeds); between in-process generations other allocations (allocators with custom priorities and interference), register draws and an unrelated compilation take place; all outputs must be byte-identical; non-trivial = compilation succeeded and the program has more than 5 nodes; distinct by program text", reps, procs)
 	o.Plan.Stats["programs"] = len(progs)
 	o.Plan.Stats["repetitions_in_process"] = reps
 	o.Plan.Stats["fresh_processes"] = procs
